@@ -88,7 +88,10 @@ def r1_readers(ctx):
               "the string reader feeds csv with io.StringIO(text, newline=''): records are split exactly like the file reader", why)
     for e in (by['import_file'][0], by['import_string'][0]):
         rets = symex.returns(e)
-        ok = len(rets) >= 1 and all(isinstance(v, ast.Call) and src(v.func) == 'self.run' for _, v, _ in rets)
+        ok = len(rets) >= 1 and all(isinstance(v, ast.Call) and (src(v.func) == 'self.run' or (
+            # ... or the result of the other import method of the same object, which does (import_file -> import_string)
+            isinstance(v.func, ast.Attribute) and F.is_name(v.func.value, 'self') and v.func.attr in ('import_string', 'import_file')
+            and v.func.attr != e.name)) for _, v, _ in rets)
         ctx.check(ok, 'R1', e.loc, e.qualname, 'reader-feeds-run', f'{e.name} returns self.run(reader)')
 
 
